@@ -149,6 +149,12 @@ type FnTrans struct {
 	lastReinst int
 	frames   []frameFact
 	qhyps    []*qhyp
+	deferredEx []func() string // goal existentials whose instances are chosen at oblige time
+	obWit    []Val           // witness terms named by hypotheses while instantiating for the current obligation
+	deferEx  bool
+	concats  [][3]string     // string concatenations translated so far (left, right, result)
+	wantTy   types.Type      // Go type of the quantified variable candidates are being chosen for
+	witTerms []Val           // every witness term hypotheses have named (instances for goal existentials)
 	assumeSeen map[string]bool
 	allocs   []*ssa.Alloc
 	escCache map[*ssa.Alloc]bool
@@ -189,6 +195,7 @@ func (tr *FnTrans) oblige(kind, clause, guard, goal string, pos token.Pos) *Obli
 	// the goal may have introduced skolem constants: instantiate the hypotheses with them, for this
 	// obligation only
 	var extra []Assume
+	tr.obWit = nil
 	if len(tr.skolems) > 0 {
 		sk := tr.skolems
 		tr.skolems = nil
@@ -196,6 +203,26 @@ func (tr *FnTrans) oblige(kind, clause, guard, goal string, pos token.Pos) *Obli
 		tr.instantiateWith(sk)
 		tr.sink = nil
 	}
+	if len(tr.deferredEx) > 0 {
+		ds := tr.deferredEx
+		tr.deferredEx = nil
+		was := tr.deferEx
+		tr.deferEx = false
+		for _, d := range ds {
+			extra = append(extra, Assume{"true", d(), "instances of a goal existential"})
+		}
+		tr.deferEx = was
+		// the instances may contain universals of their own (skolemised just now): the hypotheses
+		// are instantiated with those constants as well
+		if len(tr.skolems) > 0 {
+			sk := tr.skolems
+			tr.skolems = nil
+			tr.sink = &extra
+			tr.instantiateWith(sk)
+			tr.sink = nil
+		}
+	}
+	tr.obWit = nil
 	tr.oblCnt[kind]++
 	name := fmt.Sprintf("%s/%s#%d", tr.name, kind, tr.oblCnt[kind])
 	o := &Obligation{Name: name, Kind: kind, Fn: tr.name, Props: tr.props, Guard: guard, Goal: goal,
@@ -1005,6 +1032,16 @@ func (tr *FnTrans) binop(op token.Token, x, y Val, resTy types.Type, st *BState,
 		case token.ADD:
 			n := tr.smt.define("cat", "Str", fmt.Sprintf("(str_concat %s %s)", x.T, y.T))
 			tr.assume("true", fmt.Sprintf("(= (strlen %s) (%s (strlen %s) (strlen %s)))", n, tr.addOp(), x.T, y.T), "concat length")
+			// cancellation, instantiated for the concatenations seen so far: p+a == p+b ==> a == b, a+s == b+s ==> a == b
+			for _, c := range tr.concats {
+				if c[0] == x.T && c[1] != y.T {
+					tr.assume("true", fmt.Sprintf("(=> (= %s %s) (= %s %s))", n, c[2], y.T, c[1]), "string concatenation cancels on the left")
+				}
+				if c[1] == y.T && c[0] != x.T {
+					tr.assume("true", fmt.Sprintf("(=> (= %s %s) (= %s %s))", n, c[2], x.T, c[0]), "string concatenation cancels on the right")
+				}
+			}
+			tr.concats = append(tr.concats, [3]string{x.T, y.T, n})
 			return n
 		case token.LSS, token.LEQ, token.GTR, token.GEQ:
 			tr.smt.declareFun("str_lt", []string{"Str", "Str"}, "Bool")
